@@ -74,10 +74,41 @@ Definition make_sequence (r : resp) : resp :=
           r_passthrough := r_passthrough r; r_auto_cl := r_auto_cl r; r_autocorrect := r_autocorrect r;
           r_callbacks := r_callbacks r ++ (if r_closable r then [CbWrapped] else []) |}.
 
+(* ================================================================== body accessors *)
+Definition CONTENT_LENGTH : str := [67; 111; 110; 116; 101; 110; 116; 45; 76; 101; 110; 103; 116; 104].
+Definition ETAG : str := [69; 84; 97; 103].
+
+Definition with_body (r : resp) (h : headers) (body : list item) (cbs : list cbk) : resp :=
+  {| r_headers := h; r_code := r_code r; r_line := r_line r; r_body := body; r_is_seq := true; r_closable := false;
+     r_passthrough := r_passthrough r; r_auto_cl := r_auto_cl r; r_autocorrect := r_autocorrect r; r_callbacks := cbs |}.
+
+(* set_data(value): the body becomes the one encoded value, Content-Length its number of bytes *)
+Definition set_data (r : resp) (v : item) : resp :=
+  let b := encode_item v in
+  with_body r (if r_auto_cl r then hd_set_str (r_headers r) CONTENT_LENGTH (dec_of_Z (Z.of_nat (length b))) else r_headers r)
+            [IBytes b] (r_callbacks r).
+
+(* _ensure_sequence: None = RuntimeError (direct passthrough; implicit_sequence_conversion is left at its default) *)
+Definition ensure_sequence (r : resp) : option resp :=
+  if r_is_seq r then Some r else if r_passthrough r then None else Some (make_sequence r).
+(* calculate_content_length / get_data: the response afterwards and the value *)
+Definition calculate_content_length (r : resp) : resp * option nat :=
+  match ensure_sequence r with Some r' => (r', Some (length (body_bytes r'))) | None => (r, None) end.
+Definition get_data (r : resp) : resp * option bytes :=
+  match ensure_sequence r with Some r' => (r', Some (body_bytes r')) | None => (r, None) end.
+
+(* freeze(): the body is buffered whatever the flags say, the consumed iterable is closed on the spot (second
+   component: did that close run), Content-Length is set, an ETag (a parameter: generate_etag is a hash) is added
+   unless one is there *)
+Definition freeze (etag : str) (r : resp) : resp * bool :=
+  let body := map (fun i => IBytes (encode_item i)) (r_body r) in
+  let h1 := hd_set_str (r_headers r) CONTENT_LENGTH (dec_of_Z (Z.of_nat (length (body_bytes r)))) in
+  let h2 := if hd_contains h1 ETAG then h1 else hd_set_str h1 ETAG etag in
+  (with_body r h2 body (r_callbacks r), r_closable r).
+
 (* ================================================================== get_wsgi_headers *)
 Definition LOCATION : str := [76; 111; 99; 97; 116; 105; 111; 110].
 Definition CONTENT_LOCATION : str := [67; 111; 110; 116; 101; 110; 116; 45; 76; 111; 99; 97; 116; 105; 111; 110].
-Definition CONTENT_LENGTH : str := [67; 111; 110; 116; 101; 110; 116; 45; 76; 101; 110; 103; 116; 104].
 
 (* the scan loop keeps the last value of a header *)
 Definition last_value (h : headers) (name : str) : option str := hd_error (rev (hd_getlist h name)).
